@@ -1,9 +1,16 @@
+//go:build amd64 && linux
+
 package c20
 
 import (
 	"fmt"
+	"runtime/debug"
 	"syscall"
 	"unsafe"
+
+	"github.com/wollac/iota-crypto-demo/pkg/curl"
+
+	"verif/harness/fw"
 )
 
 const (
@@ -75,4 +82,60 @@ func locate(addr uintptr, as []*arena, offs []int) string {
 		}
 	}
 	return fmt.Sprintf("address 0x%x (outside all arenas)", addr)
+}
+
+var arenas []*arena
+
+func getArenas() []*arena {
+	if arenas == nil {
+		for _, n := range []string{"lto", "hto", "lfrom", "hfrom"} {
+			a, err := newArena(n)
+			if err != nil {
+				panic(err)
+			}
+			arenas = append(arenas, a)
+		}
+	}
+	return arenas
+}
+
+// fenced runs the build-selected transform with all four buffers in guard-page arenas.
+func fenced(o *fw.Obs, in *state, upper bool, seed byte) (*state, bool) {
+	as := getArenas()
+	var bufs [4]*[729]uint
+	offs := make([]int, 4)
+	for k, a := range as {
+		bufs[k], offs[k] = a.place(upper)
+		a.fillCanary(offs[k], seed+byte(k))
+		for i := range bufs[k] {
+			bufs[k][i] = 0xdeadbeefdeadbeef
+		}
+	}
+	*bufs[2], *bufs[3] = in.l, in.h
+	ok := true
+	func() {
+		old := debug.SetPanicOnFault(true)
+		defer debug.SetPanicOnFault(old)
+		defer func() {
+			if r := recover(); r != nil {
+				ok = false
+				where := fmt.Sprint(r)
+				if ae, is := r.(interface{ Addr() uintptr }); is {
+					where = locate(ae.Addr(), as, offs)
+				}
+				o.Fail("fence", "memory fault inside the permutation (buffers flush against the %s guard): %s; %v", placement(upper), where, r)
+			}
+		}()
+		curl.VerifTransform(bufs[0], bufs[1], bufs[2], bufs[3])
+	}()
+	if !ok {
+		return nil, false
+	}
+	for k, a := range as {
+		if err := a.checkCanary(offs[k], seed+byte(k)); err != nil {
+			o.Fail("canary", "stray write (buffers flush against the %s guard): %v", placement(upper), err)
+			return nil, false
+		}
+	}
+	return &state{l: *bufs[0], h: *bufs[1]}, true
 }
